@@ -80,7 +80,9 @@ SubsStep(st, fr) ==
     [] fr.f = "fincall" ->      \* holding the callback cell: take() and call
          IF st.nodes[fr.n].f
          THEN LET nd == st.nodes[fr.n] IN     \* a > 0: the callback also sends item v into hot subject a (teardown feeding back)
-              Push([st EXCEPT !.nodes[fr.n].f = FALSE],
+              (* the harness callback leaves an entry in the common log: its place among the notifications is observable *)
+              Push([st EXCEPT !.nodes[fr.n].f = FALSE,
+                              !.log = IF st.conc THEN @ ELSE Append(@, LogEntry(0, "F", U, st.now))],
                    <<Bump(nd.b)>> \o (IF nd.a > 0 THEN SubjEmit(st, nd.a, "N", nd.v) ELSE <<>>))
          ELSE st
     [] fr.f = "rccheck" ->      \* ret = subject.is_empty()
